@@ -125,9 +125,9 @@ def make_iterspec(I, st, it):
     if isinstance(it, SV):
         t = it.t
         cases = [
-            (kind(t) == K_LIST, IterSpec(n=llen(t), elem=lambda i: SV(lget(t, i)))),
-            (kind(t) == K_DICT, IterSpec(n=dlen(t), elem=lambda i: SV(smt.mk_str(dkey(t, i))))),
-            (kind(t) == K_STR, IterSpec(n=z3.Length(sval(t)), elem=lambda i: SV(smt.mk_str(z3.SubString(sval(t), i, 1))))),
+            (smt.kd(t, K_LIST), IterSpec(n=llen(t), elem=lambda i: SV(lget(t, i)))),
+            (smt.kd(t, K_DICT), IterSpec(n=dlen(t), elem=lambda i: SV(smt.mk_str(dkey(t, i))))),
+            (smt.kd(t, K_STR), IterSpec(n=z3.Length(sval(t)), elem=lambda i: SV(smt.mk_str(z3.SubString(sval(t), i, 1))))),
             (z3.Not(smt.is_kind(t, K_LIST, K_DICT, K_STR)), raised("TypeError", "iter")),
         ]
         return branch(ctx, st, cases)
@@ -228,18 +228,19 @@ def compare(I, st, op, a, b, node=None):
         a2, b2 = a, b
     if isinstance(a2, SV) and isinstance(b2, SV):
         bothnum = z3.And(smt.is_numeric(a2.t), smt.is_numeric(b2.t))
-        bothstr = z3.And(kind(a2.t) == K_STR, kind(b2.t) == K_STR)
+        bothstr = z3.And(smt.kd(a2.t, K_STR), smt.kd(b2.t, K_STR))
         cases = [
             (bothnum, SB(_ord(op, smt.num(a2.t), smt.num(b2.t)))),
             (bothstr, SB(_ordstr(op, sval(a2.t), sval(b2.t)))),
-            (z3.And(z3.Not(bothnum), z3.Not(bothstr), z3.And(kind(a2.t) == K_LIST, kind(b2.t) == K_LIST)), "lists"),
-            (z3.And(z3.Not(bothnum), z3.Not(bothstr), z3.Not(z3.And(kind(a2.t) == K_LIST, kind(b2.t) == K_LIST))),
+            (z3.And(z3.Not(bothnum), z3.Not(bothstr), z3.And(smt.kd(a2.t, K_LIST), smt.kd(b2.t, K_LIST))), "lists"),
+            (z3.And(z3.Not(bothnum), z3.Not(bothstr), z3.Not(z3.And(smt.kd(a2.t, K_LIST), smt.kd(b2.t, K_LIST)))),
              raised("TypeError", "ordering")),
         ]
         out = []
         for s, payload in branch(ctx, st, cases):
             if payload == "lists":
-                raise OutOfSubset("ordering comparison of lists")
+                ctx.refute_or_oos(s, "ordering comparison of lists")
+                continue
             out.append((s, payload))
         return out
     raise OutOfSubset("comparison %s of %r and %r" % (type(op).__name__, a, b))
@@ -272,17 +273,17 @@ def prim_is(I, st, a, b):
     for x, y in ((a, b), (b, a)):
         if isinstance(y, SV) and y.known and y.conc is None:
             if isinstance(x, SV):
-                return SB(kind(x.t) == K_NONE)
+                return SB(smt.kd(x.t, K_NONE))
             return SB(False)
         if isinstance(y, SV) and y.known and y.conc is True:
             if isinstance(x, SV):
-                return SB(z3.And(kind(x.t) == K_BOOL, bval(x.t)))
+                return SB(z3.And(smt.kd(x.t, K_BOOL), bval(x.t)))
             if isinstance(x, SB):
                 return SB(x.f)
             return SB(False)
         if isinstance(y, SV) and y.known and y.conc is False:
             if isinstance(x, SV):
-                return SB(z3.And(kind(x.t) == K_BOOL, z3.Not(bval(x.t))))
+                return SB(z3.And(smt.kd(x.t, K_BOOL), z3.Not(bval(x.t))))
             if isinstance(x, SB):
                 return SB(z3.Not(x.f))
             return SB(False)
@@ -309,6 +310,16 @@ def prim_eq(I, st, a, b):
         return a.t == b.t
     if isinstance(a, SB) and isinstance(b, SB):
         return a.f == b.f
+    if isinstance(a, FloatV) or isinstance(b, FloatV):
+        fa, other = (a, b) if isinstance(a, FloatV) else (b, a)
+        if isinstance(other, FloatV):
+            return z3.And(fa.isinf == other.isinf, z3.Or(fa.isinf, fa.val == other.val))
+        o2 = to_sv(other)
+        return z3.And(z3.Not(fa.isinf), smt.is_numeric(o2.t), smt.num(o2.t) == fa.val)
+    if isinstance(a, FractionV) or isinstance(b, FractionV):
+        fa, other = (a, b) if isinstance(a, FractionV) else (b, a)
+        ot = other.t if isinstance(other, FractionV) else smt.num(to_sv(other).t)
+        return fa.t == ot
     if isinstance(a, SReal) or isinstance(b, SReal):
         ra = a.t if isinstance(a, SReal) else smt.num(to_sv(a).t)
         rb = b.t if isinstance(b, SReal) else smt.num(to_sv(b).t)
@@ -322,9 +333,9 @@ def prim_eq(I, st, a, b):
     if a2.known and b2.known:
         return z3.BoolVal(a2.conc == b2.conc and not (isinstance(a2.conc, float) and a2.conc != a2.conc))
     if b2.known and isinstance(b2.conc, str):
-        return z3.And(kind(a2.t) == K_STR, sval(a2.t) == z3.StringVal(b2.conc))
+        return z3.And(smt.kd(a2.t, K_STR), sval(a2.t) == z3.StringVal(b2.conc))
     if a2.known and isinstance(a2.conc, str):
-        return z3.And(kind(b2.t) == K_STR, sval(b2.t) == z3.StringVal(a2.conc))
+        return z3.And(smt.kd(b2.t, K_STR), sval(b2.t) == z3.StringVal(a2.conc))
     for x, y in ((a2, b2), (b2, a2)):
         if y.known and isinstance(y.conc, (int, bool)) and not isinstance(y.conc, float):
             return z3.And(smt.is_numeric(x.t), smt.num(x.t) == z3.RealVal(int(y.conc)))
@@ -340,18 +351,18 @@ def prim_in(I, st, x, c):
         if isinstance(x, SV) and x.known:
             return [(st, SB(x.conc in c.d))]
         xs = to_sv(x)
-        return [(st, SB(z3.And(kind(xs.t) == K_STR, z3.Or([sval(xs.t) == z3.StringVal(k) for k in c.d]) if c.d else z3.BoolVal(False))))]
+        return [(st, SB(z3.And(smt.kd(xs.t, K_STR), z3.Or([sval(xs.t) == z3.StringVal(k) for k in c.d]) if c.d else z3.BoolVal(False))))]
     if isinstance(c, SV):
         xs = to_sv(x)
         t = c.t
         i = smt.fresh("k", smt.I)
         cases = [
-            (z3.And(kind(t) == K_DICT, kind(xs.t) == K_STR), SB(dhas(t, sval(xs.t)))),
-            (z3.And(kind(t) == K_DICT, smt.is_kind(xs.t, K_LIST, K_DICT)), raised("TypeError", "unhashable")),
-            (z3.And(kind(t) == K_DICT, z3.Not(smt.is_kind(xs.t, K_STR, K_LIST, K_DICT))), SB(False)),
-            (kind(t) == K_LIST, SB(z3.Exists([i], z3.And(0 <= i, i < llen(t), smt.pyeq(lget(t, i), xs.t))))),
-            (z3.And(kind(t) == K_STR, kind(xs.t) == K_STR), SB(z3.Contains(sval(t), sval(xs.t)))),
-            (z3.And(kind(t) == K_STR, kind(xs.t) != K_STR), raised("TypeError", "in-str")),
+            (z3.And(smt.kd(t, K_DICT), smt.kd(xs.t, K_STR)), SB(dhas(t, sval(xs.t)))),
+            (z3.And(smt.kd(t, K_DICT), smt.is_kind(xs.t, K_LIST, K_DICT)), raised("TypeError", "unhashable")),
+            (z3.And(smt.kd(t, K_DICT), z3.Not(smt.is_kind(xs.t, K_STR, K_LIST, K_DICT))), SB(False)),
+            (smt.kd(t, K_LIST), SB(z3.Exists([i], z3.And(0 <= i, i < llen(t), smt.pyeq(lget(t, i), xs.t))))),
+            (z3.And(smt.kd(t, K_STR), smt.kd(xs.t, K_STR)), SB(z3.Contains(sval(t), sval(xs.t)))),
+            (z3.And(smt.kd(t, K_STR), z3.Not(smt.kd(xs.t, K_STR))), raised("TypeError", "in-str")),
             (z3.Not(smt.is_kind(t, K_DICT, K_LIST, K_STR)), raised("TypeError", "in-noncontainer")),
         ]
         return branch(ctx, st, cases)
@@ -376,7 +387,7 @@ def seq_exists(seq, pred):
     if isinstance(seq, Alt):
         return z3.Or([z3.And(c, seq_exists(b, pred)) for c, b in seq.cases])
     if isinstance(seq, For):
-        return z3.Exists([seq.ivar], z3.And(seq.ivar >= 0, seq.ivar < seq.n, seq_exists(seq.body, pred)))
+        return z3.Exists([seq.ivar], z3.And(seq.rng(), seq_exists(seq.body, pred)))
     raise OutOfSubset("membership in %r" % (seq,))
 
 
@@ -412,8 +423,8 @@ def binop(I, st, op, a, b, node=None):
         return [(st, SStr(z3.Concat(a.t, b.t)))]
     if isinstance(op, ast.Add) and (isinstance(a, SStr) or isinstance(b, SStr)):
         a2, b2 = to_sv(a), to_sv(b)
-        cases = [(z3.And(kind(a2.t) == K_STR, kind(b2.t) == K_STR), SStr(z3.Concat(sval(a2.t), sval(b2.t)))),
-                 (z3.Not(z3.And(kind(a2.t) == K_STR, kind(b2.t) == K_STR)), raised("TypeError", "str+"))]
+        cases = [(z3.And(smt.kd(a2.t, K_STR), smt.kd(b2.t, K_STR)), SStr(z3.Concat(sval(a2.t), sval(b2.t)))),
+                 (z3.Not(z3.And(smt.kd(a2.t, K_STR), smt.kd(b2.t, K_STR))), raised("TypeError", "str+"))]
         return branch(ctx, st, cases)
     if isinstance(a, (SV, SInt, SB)) and isinstance(b, (SV, SInt, SB)):
         a2, b2 = to_sv(a), to_sv(b)
@@ -423,14 +434,15 @@ def binop(I, st, op, a, b, node=None):
             return prim_mod(I, st, a2, b2)
         if isinstance(op, (ast.Add, ast.Sub)):
             bothint = z3.And(smt.is_kind(a2.t, K_INT, K_BOOL), smt.is_kind(b2.t, K_INT, K_BOOL))
-            ia = z3.If(kind(a2.t) == K_BOOL, z3.If(bval(a2.t), 1, 0), ival(a2.t))
-            ib = z3.If(kind(b2.t) == K_BOOL, z3.If(bval(b2.t), 1, 0), ival(b2.t))
+            ia = z3.If(smt.kd(a2.t, K_BOOL), z3.If(bval(a2.t), 1, 0), ival(a2.t))
+            ib = z3.If(smt.kd(b2.t, K_BOOL), z3.If(bval(b2.t), 1, 0), ival(b2.t))
             r = ia + ib if isinstance(op, ast.Add) else ia - ib
             cases = [(bothint, SV(smt.mk_int(r))), (z3.Not(bothint), "other")]
             out = []
             for s, p in branch(ctx, st, cases):
                 if p == "other":
-                    raise OutOfSubset("non-integer +/-")
+                    ctx.refute_or_oos(s, "non-integer +/-")
+                    continue
                 out.append((s, p))
             return out
     if isinstance(a, FractionV) and isinstance(b, FractionV) and isinstance(op, ast.Div):
@@ -455,8 +467,8 @@ def prim_truediv(I, st, a, b):
     a_is_int = smt.is_kind(a.t, K_INT, K_BOOL)
     b_is_int = smt.is_kind(b.t, K_INT, K_BOOL)
     ia, ib = ival(a.t), ival(b.t)
-    a_conv_ok = z3.Or(z3.Not(kind(a.t) == K_INT), int2float_ok(ia))
-    b_conv_ok = z3.Or(z3.Not(kind(b.t) == K_INT), int2float_ok(ib))
+    a_conv_ok = z3.Or(z3.Not(smt.kd(a.t, K_INT)), int2float_ok(ia))
+    b_conv_ok = z3.Or(z3.Not(smt.kd(b.t, K_INT)), int2float_ok(ib))
     bothint = z3.And(a_is_int, b_is_int)
     cases = [
         (z3.Not(bothnum), raised("TypeError", "truediv")),
@@ -484,13 +496,13 @@ def prim_mod(I, st, a, b):
     na, nb = smt.num(a.t), smt.num(b.t)
     a_is_int = smt.is_kind(a.t, K_INT, K_BOOL)
     b_is_int = smt.is_kind(b.t, K_INT, K_BOOL)
-    ia = z3.If(kind(a.t) == K_BOOL, z3.If(bval(a.t), 1, 0), ival(a.t))
-    ib = z3.If(kind(b.t) == K_BOOL, z3.If(bval(b.t), 1, 0), ival(b.t))
+    ia = z3.If(smt.kd(a.t, K_BOOL), z3.If(bval(a.t), 1, 0), ival(a.t))
+    ib = z3.If(smt.kd(b.t, K_BOOL), z3.If(bval(b.t), 1, 0), ival(b.t))
     bothint = z3.And(a_is_int, b_is_int)
     # Python int %: result has the sign of the divisor.  z3's mod is non-negative for any divisor.
     pym = z3.If(ib > 0, ia % ib, -((-ia) % (-ib)))
-    a_conv_ok = z3.Or(z3.Not(kind(a.t) == K_INT), int2float_ok(ival(a.t)))
-    b_conv_ok = z3.Or(z3.Not(kind(b.t) == K_INT), int2float_ok(ival(b.t)))
+    a_conv_ok = z3.Or(z3.Not(smt.kd(a.t, K_INT)), int2float_ok(ival(a.t)))
+    b_conv_ok = z3.Or(z3.Not(smt.kd(b.t, K_INT)), int2float_ok(ival(b.t)))
     # float % : exact fmod with Python's sign rule, on converted operands
     fa, fb = to_float(na), to_float(nb)
     q = z3.ToInt(fa / fb)   # floor for positive divisor
@@ -542,11 +554,14 @@ def get_attr(I, st, obj, attr):
         return err_get_attr(I, st, obj, attr)
     if isinstance(obj, ErrVal):
         raise OutOfSubset("attribute of an error snapshot")
+    if isinstance(obj, FractionV) and attr == "denominator":
+        # denominator == 1  <=>  value is an integer; expose as an int term that is 1 iff integral
+        return [(st, SInt(z3.If(z3.IsInt(obj.t), z3.IntVal(1), z3.IntVal(2))))]
     if isinstance(obj, ExcVal):
         if attr in obj.fields:
             return [(st, obj.fields[attr])]
         raise OutOfSubset("attribute %s of %r" % (attr, obj))
-    if isinstance(obj, (SV, SStr, SInt, ListObj, PyDict, PyTuple, ItemsView, IterVal, FractionV, FloatV, PathV, Opaque, ClassRef, Builtin)):
+    if isinstance(obj, (SV, SStr, SInt, ListObj, PyDict, PyTuple, ItemsView, IterVal, FractionV, FloatV, PathV, Opaque, ClassRef, Builtin, ErrPathRef)):
         return [(st, BoundMethod(obj, attr))]
     raise OutOfSubset("attribute %s of %r" % (attr, obj))
 
@@ -599,13 +614,14 @@ def subscript(I, st, obj, key):
             n = llen(obj.t)
             # clamp as Python does
             a2 = z3.If(a < 0, z3.If(a + n < 0, 0, a + n), z3.If(a > n, n, a))
-            cases = [(kind(obj.t) == K_LIST, SV(lslice(obj.t, a2))),
-                     (kind(obj.t) == K_STR, "str"),
+            cases = [(smt.kd(obj.t, K_LIST), SV(lslice(obj.t, a2))),
+                     (smt.kd(obj.t, K_STR), "str"),
                      (z3.Not(smt.is_kind(obj.t, K_LIST, K_STR)), raised("TypeError", "slice"))]
             out = []
             for s, p in branch(ctx, st, cases):
                 if p == "str":
-                    raise OutOfSubset("string slice")
+                    ctx.refute_or_oos(s, "string slice")
+                    continue
                 out.append((s, p))
             return out
         raise OutOfSubset("slice of %r" % (obj,))
@@ -617,8 +633,8 @@ def subscript(I, st, obj, key):
         ks = to_sv(key)
         cases = []
         for k2, val in obj.d.items():
-            cases.append((z3.And(kind(ks.t) == K_STR, sval(ks.t) == z3.StringVal(k2)), val))
-        hit = z3.And(kind(ks.t) == K_STR, z3.Or([sval(ks.t) == z3.StringVal(k2) for k2 in obj.d])) if obj.d else z3.BoolVal(False)
+            cases.append((z3.And(smt.kd(ks.t, K_STR), sval(ks.t) == z3.StringVal(k2)), val))
+        hit = z3.And(smt.kd(ks.t, K_STR), z3.Or([sval(ks.t) == z3.StringVal(k2) for k2 in obj.d])) if obj.d else z3.BoolVal(False)
         cases.append((z3.And(z3.Not(hit), smt.is_kind(ks.t, K_LIST, K_DICT)), raised("TypeError", "unhashable key")))
         cases.append((z3.And(z3.Not(hit), z3.Not(smt.is_kind(ks.t, K_LIST, K_DICT))), raised("KeyError", "dict[]")))
         return branch(ctx, st, cases)
@@ -633,23 +649,23 @@ def subscript(I, st, obj, key):
         t = obj.t
         k = key if isinstance(key, SV) else to_sv(key)
         kt = k.t
-        kint = z3.If(kind(kt) == K_BOOL, z3.If(bval(kt), 1, 0), ival(kt))
+        kint = z3.If(smt.kd(kt, K_BOOL), z3.If(bval(kt), 1, 0), ival(kt))
         isint = smt.is_kind(kt, K_INT, K_BOOL)
         n = llen(t)
         ni = norm_index(kint, n)
         sl = z3.Length(sval(t))
         si = norm_index(kint, sl)
         cases = [
-            (z3.And(kind(t) == K_DICT, kind(kt) == K_STR, dhas(t, sval(kt))), SV(dget(t, sval(kt)))),
-            (z3.And(kind(t) == K_DICT, kind(kt) == K_STR, z3.Not(dhas(t, sval(kt)))), raised("KeyError", "dict[]")),
-            (z3.And(kind(t) == K_DICT, smt.is_kind(kt, K_LIST, K_DICT)), raised("TypeError", "unhashable key")),
-            (z3.And(kind(t) == K_DICT, z3.Not(smt.is_kind(kt, K_STR, K_LIST, K_DICT))), raised("KeyError", "dict[non-str]")),
-            (z3.And(kind(t) == K_LIST, isint, 0 <= ni, ni < n), SV(lget(t, ni))),
-            (z3.And(kind(t) == K_LIST, isint, z3.Not(z3.And(0 <= ni, ni < n))), raised("IndexError", "list[]")),
-            (z3.And(kind(t) == K_LIST, z3.Not(isint)), raised("TypeError", "list[non-int]")),
-            (z3.And(kind(t) == K_STR, isint, 0 <= si, si < sl), SV(smt.mk_str(z3.SubString(sval(t), si, 1)))),
-            (z3.And(kind(t) == K_STR, isint, z3.Not(z3.And(0 <= si, si < sl))), raised("IndexError", "str[]")),
-            (z3.And(kind(t) == K_STR, z3.Not(isint)), raised("TypeError", "str[non-int]")),
+            (z3.And(smt.kd(t, K_DICT), smt.kd(kt, K_STR), dhas(t, sval(kt))), SV(dget(t, sval(kt)))),
+            (z3.And(smt.kd(t, K_DICT), smt.kd(kt, K_STR), z3.Not(dhas(t, sval(kt)))), raised("KeyError", "dict[]")),
+            (z3.And(smt.kd(t, K_DICT), smt.is_kind(kt, K_LIST, K_DICT)), raised("TypeError", "unhashable key")),
+            (z3.And(smt.kd(t, K_DICT), z3.Not(smt.is_kind(kt, K_STR, K_LIST, K_DICT))), raised("KeyError", "dict[non-str]")),
+            (z3.And(smt.kd(t, K_LIST), isint, 0 <= ni, ni < n), SV(lget(t, ni))),
+            (z3.And(smt.kd(t, K_LIST), isint, z3.Not(z3.And(0 <= ni, ni < n))), raised("IndexError", "list[]")),
+            (z3.And(smt.kd(t, K_LIST), z3.Not(isint)), raised("TypeError", "list[non-int]")),
+            (z3.And(smt.kd(t, K_STR), isint, 0 <= si, si < sl), SV(smt.mk_str(z3.SubString(sval(t), si, 1)))),
+            (z3.And(smt.kd(t, K_STR), isint, z3.Not(z3.And(0 <= si, si < sl))), raised("IndexError", "str[]")),
+            (z3.And(smt.kd(t, K_STR), z3.Not(isint)), raised("TypeError", "str[non-int]")),
             (z3.Not(smt.is_kind(t, K_DICT, K_LIST, K_STR)), raised("TypeError", "not subscriptable")),
         ]
         return branch(ctx, st, cases)
@@ -753,9 +769,9 @@ def prim_len(I, st, x):
     if isinstance(x, SV):
         t = x.t
         cases = [
-            (kind(t) == K_LIST, SInt(llen(t))),
-            (kind(t) == K_DICT, SInt(dlen(t))),
-            (kind(t) == K_STR, SInt(z3.Length(sval(t)))),
+            (smt.kd(t, K_LIST), SInt(llen(t))),
+            (smt.kd(t, K_DICT), SInt(dlen(t))),
+            (smt.kd(t, K_STR), SInt(z3.Length(sval(t)))),
             (z3.Not(smt.is_kind(t, K_LIST, K_DICT, K_STR)), raised("TypeError", "len")),
         ]
         return branch(ctx, st, cases)
@@ -874,7 +890,7 @@ def prim_zip(I, st, args):
     for s, sps in cur:
         if any(sp.concrete is not None or sp.seq is not None for sp in sps):
             raise OutOfSubset("zip of concrete/sequence iterables")
-        if any(sp.start is not None for sp in sps):
+        if any(sp.start is not None and not (z3.is_int_value(sp.start) and sp.start.as_long() == 0) for sp in sps):
             raise OutOfSubset("zip of a resumed iterator")
         n = sps[0].n
         for sp in sps[1:]:
@@ -952,14 +968,15 @@ def prim_fraction(I, st, x):
     out = []
     for s, p in branch(I.ctx, st, cases):
         if p == "other":
-            raise OutOfSubset("Fraction of non-number")
+            I.ctx.refute_or_oos(s, "Fraction of non-number")
+            continue
         out.append((s, p))
     return out
 
 
 def prim_re_search(I, st, pat, s_):
     p, s2 = to_sv(pat), to_sv(s_)
-    okk = z3.And(kind(p.t) == K_STR, kind(s2.t) == K_STR)
+    okk = z3.And(smt.kd(p.t, K_STR), smt.kd(s2.t, K_STR))
     cases = [
         (z3.And(okk, smt.re_compiles(sval(p.t))), SB(smt.re_search(sval(p.t), sval(s2.t)))),
         (z3.And(okk, z3.Not(smt.re_compiles(sval(p.t)))), raised("re.error", "re.search")),
@@ -997,8 +1014,8 @@ def call_method(I, st, obj, name, args, kwargs, node=None):
             ks = to_sv(k)
             cases = []
             for key, val in obj.d.items():
-                cases.append((z3.And(kind(ks.t) == K_STR, sval(ks.t) == z3.StringVal(key)), val))
-            miss = z3.Not(z3.And(kind(ks.t) == K_STR, z3.Or([sval(ks.t) == z3.StringVal(key) for key in obj.d]))) if obj.d else z3.BoolVal(True)
+                cases.append((z3.And(smt.kd(ks.t, K_STR), sval(ks.t) == z3.StringVal(key)), val))
+            miss = z3.Not(z3.And(smt.kd(ks.t, K_STR), z3.Or([sval(ks.t) == z3.StringVal(key) for key in obj.d]))) if obj.d else z3.BoolVal(True)
             cases.append((miss, args[1] if len(args) > 1 else lift(None)))
             return branch(ctx, st, cases)
     if isinstance(obj, FractionV) and name == "denominator":
@@ -1040,41 +1057,43 @@ def sv_method(I, st, obj, name, args, kwargs):
         if not (k.known and isinstance(k.conc, str)):
             kt = k.t
             cases = [
-                (z3.And(kind(t) == K_DICT, kind(kt) == K_STR, dhas(t, sval(kt))), SV(dget(t, sval(kt)))),
-                (z3.And(kind(t) == K_DICT, kind(kt) == K_STR, z3.Not(dhas(t, sval(kt)))), default),
-                (z3.And(kind(t) == K_DICT, kind(kt) != K_STR), "nonstr"),
-                (kind(t) != K_DICT, raised("AttributeError", ".get")),
+                (z3.And(smt.kd(t, K_DICT), smt.kd(kt, K_STR), dhas(t, sval(kt))), SV(dget(t, sval(kt)))),
+                (z3.And(smt.kd(t, K_DICT), smt.kd(kt, K_STR), z3.Not(dhas(t, sval(kt)))), default),
+                (z3.And(smt.kd(t, K_DICT), z3.Not(smt.kd(kt, K_STR))), "nonstr"),
+                (z3.Not(smt.kd(t, K_DICT)), raised("AttributeError", ".get")),
             ]
         else:
             ks = z3.StringVal(k.conc)
             cases = [
-                (z3.And(kind(t) == K_DICT, dhas(t, ks)), SV(dget(t, ks))),
-                (z3.And(kind(t) == K_DICT, z3.Not(dhas(t, ks))), default),
-                (kind(t) != K_DICT, raised("AttributeError", ".get")),
+                (z3.And(smt.kd(t, K_DICT), dhas(t, ks)), SV(dget(t, ks))),
+                (z3.And(smt.kd(t, K_DICT), z3.Not(dhas(t, ks))), default),
+                (z3.Not(smt.kd(t, K_DICT)), raised("AttributeError", ".get")),
             ]
         out = []
         for s, p in branch(ctx, st, cases):
             if p == "nonstr":
-                raise OutOfSubset(".get with non-string key")
+                ctx.refute_or_oos(s, ".get with non-string key")
+                continue
             out.append((s, p))
         return out
     if name == "items":
-        cases = [(kind(t) == K_DICT, ItemsView(obj)), (kind(t) != K_DICT, raised("AttributeError", ".items"))]
+        cases = [(smt.kd(t, K_DICT), ItemsView(obj)), (z3.Not(smt.kd(t, K_DICT)), raised("AttributeError", ".items"))]
         return branch(ctx, st, cases)
     if name == "is_integer":
-        cases = [(kind(t) == K_FLOAT, SB(z3.IsInt(fval(t)))),
-                 (kind(t) == K_INT, SB(True)),      # int.is_integer exists since 3.12
+        cases = [(smt.kd(t, K_FLOAT), SB(z3.IsInt(fval(t)))),
+                 (smt.kd(t, K_INT), SB(True)),      # int.is_integer exists since 3.12
                  (z3.Not(smt.is_kind(t, K_FLOAT, K_INT)), raised("AttributeError", ".is_integer"))]
         return branch(ctx, st, cases)
     if name == "join" and obj.known and isinstance(obj.conc, str):
         a = args[0]
         if isinstance(a, SV):
-            cases = [(kind(a.t) == K_DICT, SStr(strjoin_keys(z3.StringVal(obj.conc), a.t))),
-                     (kind(a.t) != K_DICT, "other")]
+            cases = [(smt.kd(a.t, K_DICT), SStr(strjoin_keys(z3.StringVal(obj.conc), a.t))),
+                     (z3.Not(smt.kd(a.t, K_DICT)), "other")]
             out = []
             for s, p in branch(ctx, st, cases):
                 if p == "other":
-                    raise OutOfSubset("str.join of a non-dict JSON value")
+                    ctx.refute_or_oos(s, "str.join of a non-dict JSON value")
+                    continue
                 out.append((s, p))
             return out
         return [(st, Opaque("join", [obj, a]))]
